@@ -116,6 +116,8 @@ func coqPCase(k *PCase) string {
 
 // ---------------------------------------------------------------- recording
 
+var outsideEmitted int
+
 func recordP(o *c.Out, k *PCase) {
 	rolled, refusedFull, refusedTTL, waited, prio := false, false, false, false, false
 	for _, e := range k.Events {
@@ -215,6 +217,13 @@ func recordP(o *c.Out, k *PCase) {
 	}
 	idx := o.Case("plugin", coqPCase(k), k, nontrivial)
 	o.MonitorChecked(1)
+	// the same case again, evaluated by run_plugin_outside: the side condition
+	// of C10_plugin_holds_outside_findings_decidable on the executed history
+	if (rolled || refusedTTL) && outsideEmitted < o.Scale(120, 1000000, 0) {
+		outsideEmitted++
+		o.Case("plugin_outside", coqPCase(k), k, nontrivial)
+		o.Count("plugin_outside:evaluated")
+	}
 	for _, h := range pmonitor(k) {
 		h.Suite, h.Index = "plugin", idx
 		o.Count("hit:" + h.Signature)
